@@ -372,3 +372,44 @@ def gen_compact(rng, cfg):
     vals = sorted(vals)
     rng.shuffle(vals)
     return {'op': 'compact', 'values': vals}   # finite *sets* of timestamps (the statement's domain)
+
+
+# ------------------------------------------------------------------ path / DAG probes
+def gen_probe_window(rng, m):
+    ids = m.instants()
+    if not ids:
+        return None, None
+    x = rng.random()
+    if x < 0.1:
+        return None, None
+    i = rng.randrange(len(ids))
+    j = min(len(ids) - 1, i + rng.randint(0, 4))
+    start, end = ids[i], ids[j]
+    y = rng.random()
+    if y < 0.15:
+        end = None if j == len(ids) - 1 or rng.random() < 0.3 else end
+    elif y < 0.25:
+        start = None if i == 0 else start
+    elif y < 0.33:            # invalid windows
+        start, end = rng.choice([(ids[0] - 1, end), (start, ids[-1] + 1), (end + 1, end), (ids[-1] + 1, ids[-1] + 2)])
+    elif y < 0.45 and i > 0:
+        start = start - 1 if start - 1 not in ids and start - 1 >= ids[0] else start   # start between two ids
+    return start, end
+
+
+def gen_probe(rng, rep, cfg, kind):
+    m = rep.m
+    nodes = list(m.nodes) or cfg['nodes']
+    start, end = gen_probe_window(rng, m)
+    if kind == 'probe_all':
+        ids = m.instants()
+        return {'op': 'probe_all', 'start': start, 'end': end,
+                'min_t': rng.choice([None] + ids) if ids else None}
+    u = rng.choice(nodes)
+    v = rng.choice([None, None, u] + nodes)
+    op = {'op': kind, 'u': u, 'v': v, 'start': start, 'end': end}
+    if kind == 'probe_paths' and rng.random() < 0.35:
+        op['sample'] = rng.choice([0.0, 0.3, 0.5, 0.9])
+        op['stub'] = rng.choice(['first', 'last', 'random'])
+        op['stub_seed'] = rng.randint(0, 10 ** 6)
+    return op
